@@ -253,4 +253,18 @@ for fn, nm in CONV:
       note='wrapper logic; libc converter replaced by an assumed contract (ghost body in harness/convfam.c): arbitrary admissible count and characters',
       assumptions=['C15: the libc converters (mbstowcs, wcstombs, mbsrtowcs, wcsrtombs, wcrtomb) behave as the C standard says (count <= n, (size_t)-1 and EILSEQ on error, errno untouched on success); their conversion tables, locale handling and round trips are not verified'])
 
+# ---- C09: the delegating formatted-I/O entry points must not let a %n directive reach libc
+FMT = [(1, 'sscanf_s', 'src/io/sscanf_s.c'), (2, 'vsscanf_s', 'src/io/vsscanf_s.c'), (3, 'fscanf_s', 'src/io/fscanf_s.c'),
+       (4, 'vfscanf_s', 'src/io/vfscanf_s.c'), (5, 'scanf_s', 'src/io/scanf_s.c'), (6, 'vscanf_s', 'src/io/vscanf_s.c'),
+       (7, 'swscanf_s', 'src/wchar/swscanf_s.c'), (8, 'vswscanf_s', 'src/wchar/vswscanf_s.c'), (9, 'fwscanf_s', 'src/wchar/fwscanf_s.c'),
+       (10, 'vfwscanf_s', 'src/wchar/vfwscanf_s.c'), (11, 'wscanf_s', 'src/wchar/wscanf_s.c'), (12, 'vwscanf_s', 'src/wchar/vwscanf_s.c'),
+       (13, 'swprintf_s', 'src/wchar/swprintf_s.c'), (14, 'vswprintf_s', 'src/wchar/vswprintf_s.c'), (15, 'snwprintf_s', 'src/wchar/snwprintf_s.c'),
+       (16, 'vsnwprintf_s', 'src/wchar/vsnwprintf_s.c'), (17, 'fwprintf_s', 'src/wchar/fwprintf_s.c'), (18, 'vfwprintf_s', 'src/wchar/vfwprintf_s.c'),
+       (19, 'wprintf_s', 'src/wchar/wprintf_s.c'), (20, 'vwprintf_s', 'src/wchar/vwprintf_s.c')]
+for fn, nm, path in FMT:
+    J('B.fmt.%s' % nm, ['C09', 'C05'], 'B', 'harness/fmtfam.c', sources=[path] + WCS_COMMON, defines=['FN=%d' % fn, 'FL=5'],
+      unwind=24, object_bits=10, replay=False, functions=[nm], timeout=900, stubs=['stubs/memset_model.c'] if fn >= 13 else [],
+      bound='every format string of at most 5 characters over the alphabet {% n l h 5 * . d a}',
+      assumptions=['C09: libc formatter (vsscanf/vfscanf/vscanf/vswscanf/vfwscanf/vwscanf/vswprintf/vfwprintf/vwprintf) is an assumed contract: it executes a %n conversion iff the format contains one according to the C directive grammar'])
+
 BY_NAME = {j.name: j for j in JOBS}
